@@ -64,6 +64,7 @@ func (p *tpool) AcquireMessage(ctx context.Context) *pool.Message {
 	if n := len(p.free); n > 0 {
 		m = p.free[n-1]
 		p.free = p.free[:n-1]
+		m.Reset() // takes the pool's trap body off
 		m.SetContext(ctx)
 	} else {
 		m = pool.NewMessage(ctx)
@@ -82,10 +83,27 @@ func (p *tpool) ReleaseMessage(m *pool.Message) {
 	}
 	delete(p.out, m)
 	m.Reset()
+	// a message that sits in the pool carries a body that reports every access: whoever reads the body (or asks for its
+	// size) of a message he has released is seen (`use n`)
+	m.SetBody(&trapBody{p: p, id: p.idLocked(m)})
 	if !p.fresh {
 		p.free = append(p.free, m)
 	}
 }
+
+// trapBody: the body of a message that sits in the pool
+type trapBody struct {
+	p  *tpool
+	id int
+}
+
+func (b *trapBody) log() {
+	b.p.mu.Lock()
+	defer b.p.mu.Unlock()
+	b.p.trace = append(b.p.trace, fmt.Sprintf("use %d", b.id))
+}
+func (b *trapBody) Read([]byte) (int, error)       { b.log(); return 0, io.EOF }
+func (b *trapBody) Seek(int64, int) (int64, error) { b.log(); return 0, nil }
 
 func (p *tpool) Context() context.Context { return p.ctx }
 
@@ -470,7 +488,10 @@ func pathsBw(name string) []string {
 				}
 			})
 		}()
-		<-d.first
+		select {
+		case <-d.first:
+		case <-d.done: // Do returned without sending anything
+		}
 		synctest.Wait()
 		return d
 	}
@@ -654,6 +675,109 @@ func pathsBw(name string) []string {
 		wr(mk(40, true), "write:%d:?:2:?")
 		wr(mk(40, false), "write:%d:?:3:?")
 		wr(mk(40, false), "write:%d:?:3:?") // the token is in use: refused, the working copy is given back
+	case "staleresp", "staledo", "stalewrite":
+		// A response in blocks under token T whose transfer the peer gives up after the first block; the entry's validity
+		// ends (the layer's transfer timeout; here one minute) and NO housekeeping tick runs: the element is still in the
+		// map.  In that window a new exchange under the same token starts block-wise sending: a new GET answered in blocks
+		// (staleresp), a Do of the application with a body in blocks (staledo), a WriteMessage (stalewrite).  Then the
+		// application takes messages out of the pool and holds them, and the peer asks for following blocks.
+		get := func(num int) *rx {
+			return tp.rxStart("rxStart:?:?", func(x *pool.Message) {
+				x.SetCode(codes.GET)
+				x.SetToken(pathsToken)
+				_ = x.SetPath("/bw")
+				if num > 0 {
+					x.SetOptionUint32(message.Block2, blockVal(num, false))
+				}
+			})
+		}
+		b.next = b.appHandler(body, false)
+		g0 := get(0)
+		id := tp.id(g0.x)
+		tp.step("forward:%d+forwardReturn:%d+respond:%d:3:?:0", id, id, id)
+		b.handle(g0)
+		b.rxEnd(g0)
+		tp.step("expire")
+		time.Sleep(2 * time.Minute)
+		body2 := bodyOf(40)
+		for i := range body2 {
+			body2[i] ^= 0xA5
+		}
+		var mine []*pool.Message
+		appTakes := func() {
+			for k := 0; k < 2; k++ {
+				tp.step("appAcquire:?")
+				m := tp.AcquireMessage(ctx)
+				m.SetCode(codes.PUT)
+				m.SetToken(message.Token{0xA0, byte(k)})
+				m.SetBody(bytes.NewReader([]byte("the application's own payload, not the peer's business")))
+				tp.step("appHold:%d", tp.id(m))
+				tp.ev("hold", m)
+				mine = append(mine, m)
+			}
+		}
+		continueFrom := func(layerOwned bool) {
+			for num := 1; num < 3; num++ {
+				gx := get(num)
+				id := tp.id(gx.x)
+				if num == 2 && layerOwned {
+					tp.step("contCode:%d+contCreate:%d:?:0+contDone", id, id)
+				} else {
+					tp.step("contCode:%d+contCreate:%d:?:0", id, id)
+				}
+				b.handle(gx)
+				b.rxEnd(gx)
+			}
+		}
+		switch name {
+		case "staleresp":
+			b.next = b.appHandler(body2, false)
+			g1 := get(0)
+			id := tp.id(g1.x)
+			tp.step("forward:%d+forwardReturn:%d+respond:%d:3:?:0", id, id, id)
+			b.handle(g1)
+			b.rxEnd(g1)
+			appTakes()
+			continueFrom(true)
+		case "stalewrite":
+			tp.step("appAcquire:?")
+			r := tp.AcquireMessage(ctx)
+			r.SetCode(codes.Content)
+			r.SetToken(pathsToken)
+			r.SetType(message.NonConfirmable)
+			r.SetContentFormat(message.AppOctets)
+			r.SetBody(bytes.NewReader(body2))
+			tp.step("write:%d:?:3:?", tp.id(r))
+			_ = b.bw.WriteMessage(r, blockwise.SZX16, 1152, func(*pool.Message) error { return nil })
+			tp.step("appRelease:%d", tp.id(r))
+			tp.ReleaseMessage(r)
+			appTakes()
+			continueFrom(true)
+		case "staledo":
+			r := appReq(codes.PUT, true)
+			d := startDo(r, true)
+			b.next = b.appHandler([]byte("ok"), false)
+			cont(0, false)
+			d.cancel() // the caller gives up while the transfer is under way
+			synctest.Wait()
+			endDo(d)
+			tp.step("appRelease:%d", tp.id(r))
+			tp.ReleaseMessage(r)
+			appTakes()
+			// the peer asks for a following block under the token: nothing is registered any more, the application's
+			// handler gets the request
+			gx := get(1)
+			id := tp.id(gx.x)
+			tp.step("forward:%d+forwardReturn:%d+respond:%d:0:0:0", id, id, id)
+			b.handle(gx)
+			b.rxEnd(gx)
+		}
+		for _, m := range mine {
+			tp.step("appUnhold:%d", tp.id(m))
+			tp.ev("unhold", m)
+			tp.step("appRelease:%d", tp.id(m))
+			tp.ReleaseMessage(m)
+		}
 	case "obsblock":
 		// a block-wise notification: the copy of the registration request comes from the real observation handler
 		o := newObsWorld(tp)
